@@ -191,6 +191,83 @@ pub fn lll_rows45(s: &mut Src) -> R {
     match gs_check(&b, n) { Ok(()) => {}, Err(name) => { ob!(false, name); } }
     Ok(())
 }
+// C13 (and the block-matrix axioms every unit over abstract matrices ASSUMES of SpMat): the sparse container's operations against a dense
+// reference computed here from the entries: + - neg * transpose, submat / submat_rows / submat_cols, concat, stack, divide4 / combine_blocks,
+// permute / permute_rows / permute_cols and the permutation matrices, id / zero / is_zero / is_id, col_vec, extend_cols.  Shapes up to 4 x 4,
+// entries in -3..=3, explicit zeros included via from_entries.  Sampled, bounded.
+pub fn spmat_ops_small(s: &mut Src) -> R {
+    use yui_matrix::sparse::SpMat;
+    use yui_matrix::MatTrait;
+    use yui_matrix::sparse::pivot::perms_by_pivots;
+    let (m, n, k) = (s.small(1, 4) as usize, s.small(1, 4) as usize, s.small(1, 4) as usize);
+    let mut ea = vec![0i64; 16]; let mut eb = vec![0i64; 16]; let mut ec = vec![0i64; 16];
+    for x in ea.iter_mut().chain(eb.iter_mut()).chain(ec.iter_mut()) { let v = s.small(-5, 5); *x = if v.abs() > 3 { 0 } else { v }; }
+    let (r0, r1, c0, c1) = (s.small(0, 4) as usize, s.small(0, 4) as usize, s.small(0, 4) as usize, s.small(0, 4) as usize);
+    let mut rl = [0usize; 4]; let mut cl = [0usize; 4];
+    for i in 0..4 { rl[i] = s.small(0, 3) as usize; cl[i] = s.small(0, 3) as usize; }
+    let (r1, c1) = (r1 % (m + 1), c1 % (n + 1));
+    let (r0, c0) = (r0 % (r1 + 1), c0 % (c1 + 1));
+    reach!();
+    type D = Vec<Vec<i64>>;
+    let dn = |r: usize, c: usize, e: &Vec<i64>| -> D { (0..r).map(|i| (0..c).map(|j| e[i * 4 + j]).collect()).collect() };
+    let (da, db, dc) = (dn(m, n, &ea), dn(m, n, &eb), dn(n, k, &ec));
+    // explicit zeros are stored when built from entries
+    let mk = |d: &D, r: usize, c: usize| SpMat::from_entries((r, c), (0..r).flat_map(|i| (0..c).map(move |j| (i, j))).map(|(i, j)| (i, j, d[i][j])));
+    let (a, b, c) = (mk(&da, m, n), SpMat::from_dense_data((m, n), db.iter().flatten().cloned().collect::<Vec<_>>()), mk(&dc, n, k));
+    let same = |x: &SpMat<i64>, d: &D, r: usize, c: usize| -> bool { x.shape() == (r, c) && { let xd = x.clone().into_dense(); (0..r).all(|i| (0..c).all(|j| xd[(i, j)] == d[i][j])) } };
+    ob!(same(&a, &da, m, n) && same(&b, &db, m, n), "SpMat::from_entries/from_dense_data/into_dense");
+    let add: D = (0..m).map(|i| (0..n).map(|j| da[i][j] + db[i][j]).collect()).collect();
+    let sub: D = (0..m).map(|i| (0..n).map(|j| da[i][j] - db[i][j]).collect()).collect();
+    let neg: D = (0..m).map(|i| (0..n).map(|j| -da[i][j]).collect()).collect();
+    let mul: D = (0..m).map(|i| (0..k).map(|j| (0..n).map(|l| da[i][l] * dc[l][j]).sum()).collect()).collect();
+    let tr: D = (0..n).map(|j| (0..m).map(|i| da[i][j]).collect()).collect();
+    ob!(same(&(&a + &b), &add, m, n), "SpMat::add");
+    ob!(same(&(&a - &b), &sub, m, n), "SpMat::sub");
+    ob!(same(&(-&a), &neg, m, n), "SpMat::neg");
+    ob!(same(&(&a * &c), &mul, m, k), "SpMat::mul");
+    ob!(same(&a.transpose(), &tr, n, m), "SpMat::transpose");
+    let sm: D = (r0..r1).map(|i| (c0..c1).map(|j| da[i][j]).collect()).collect();
+    ob!(same(&a.submat(r0..r1, c0..c1), &sm, r1 - r0, c1 - c0), "SpMat::submat");
+    let sr: D = (r0..r1).map(|i| da[i].clone()).collect();
+    ob!(same(&a.submat_rows(r0..r1), &sr, r1 - r0, n), "SpMat::submat_rows");
+    let sc: D = (0..m).map(|i| (c0..c1).map(|j| da[i][j]).collect()).collect();
+    ob!(same(&a.submat_cols(c0..c1), &sc, m, c1 - c0), "SpMat::submat_cols");
+    let cc: D = (0..m).map(|i| da[i].iter().chain(db[i].iter()).cloned().collect()).collect();
+    ob!(same(&a.concat(&b), &cc, m, 2 * n), "SpMat::concat");
+    let st: D = da.iter().chain(db.iter()).cloned().collect();
+    ob!(same(&a.stack(&b), &st, 2 * m, n), "SpMat::stack");
+    let mut ext = a.clone(); ext.extend_cols(b.clone());
+    ob!(same(&ext, &cc, m, 2 * n), "SpMat::extend_cols");
+    let [q0, q1, q2, q3] = a.divide4((r0, c0));
+    let blk = |i0: usize, i1: usize, j0: usize, j1: usize| -> D { (i0..i1).map(|i| (j0..j1).map(|j| da[i][j]).collect()).collect() };
+    ob!(same(&q0, &blk(0, r0, 0, c0), r0, c0) && same(&q1, &blk(0, r0, c0, n), r0, n - c0) && same(&q2, &blk(r0, m, 0, c0), m - r0, c0) && same(&q3, &blk(r0, m, c0, n), m - r0, n - c0), "SpMat::divide4");
+    ob!(same(&SpMat::combine_blocks([&q0, &q1, &q2, &q3]), &da, m, n), "SpMat::combine_blocks(divide4)==id");
+    // permutations: the listed indices first (in order, repetitions dropped), the others after them in increasing order
+    let listing = |cnt: usize, l: &[usize; 4]| -> Vec<usize> { let mut v: Vec<usize> = vec![]; for &x in l.iter() { if x < cnt && !v.contains(&x) { v.push(x); } } for x in 0..cnt { if !v.contains(&x) { v.push(x); } } v };
+    let (lr, lc) = (listing(m, &rl), listing(n, &cl));
+    let kk = lr.len().min(lc.len());
+    // perms_by_pivots takes pairs: use the common prefix and let the tails fall in increasing order, recomputing the listings accordingly
+    let pivs: Vec<(usize, usize)> = (0..kk).map(|t| (lr[t], lc[t])).collect();
+    let relist = |cnt: usize, head: Vec<usize>| -> Vec<usize> { let mut v = head; for x in 0..cnt { if !v.contains(&x) { v.push(x); } } v };
+    let (lr, lc) = (relist(m, pivs.iter().map(|p| p.0).collect()), relist(n, pivs.iter().map(|p| p.1).collect()));
+    let (p, q) = perms_by_pivots(&a, &pivs);
+    let pm: D = (0..m).map(|i| (0..n).map(|j| da[lr[i]][lc[j]]).collect()).collect();
+    ob!(same(&a.permute(p.view(), q.view()), &pm, m, n), "SpMat::permute(p,q)[i][j]==A[listing_p[i]][listing_q[j]]");
+    let pr: D = (0..m).map(|i| da[lr[i]].clone()).collect();
+    ob!(same(&a.permute_rows(p.view()), &pr, m, n), "SpMat::permute_rows");
+    let pc: D = (0..m).map(|i| (0..n).map(|j| da[i][lc[j]]).collect()).collect();
+    ob!(same(&a.permute_cols(q.view()), &pc, m, n), "SpMat::permute_cols");
+    ob!(same(&(&SpMat::<i64>::from_row_perm(p.view()) * &a), &pr, m, n), "SpMat::from_row_perm(p).A==A.permute_rows(p)");
+    ob!(same(&(&a * &SpMat::<i64>::from_col_perm(q.view())), &pc, m, n), "SpMat::A.from_col_perm(q)==A.permute_cols(q)");
+    let idn: D = (0..n).map(|i| (0..n).map(|j| if i == j { 1 } else { 0 }).collect()).collect();
+    ob!(same(&SpMat::<i64>::id(n), &idn, n, n) && SpMat::<i64>::id(n).is_id(), "SpMat::id/is_id");
+    let zz: D = vec![vec![0; n]; m];
+    ob!(same(&SpMat::<i64>::zero((m, n)), &zz, m, n) && SpMat::<i64>::zero((m, n)).is_zero(), "SpMat::zero/is_zero");
+    ob!(a.is_zero() == da.iter().all(|r| r.iter().all(|&x| x == 0)), "SpMat::is_zero(explicit-zeros)");
+    ob!(a.is_id() == (m == n && (0..m).all(|i| (0..n).all(|j| da[i][j] == if i == j { 1 } else { 0 }))), "SpMat::is_id(explicit-zeros)");
+    for j in 0..n { let v = a.col_vec(j).to_dense(); ob!((0..m).all(|i| v[i] == da[i][j]), "SpMat::col_vec"); }
+    Ok(())
+}
 // C09 / C10: the ASSUMED contracts of the dense matrix container's elementary operations, tested against the real `Mat`:
 // each operation equals left / right multiplication by the elementary matrix the overlays (units snf_prims, lll_prims) name.
 pub fn snf_mat_ops(s: &mut Src) -> R {
@@ -222,4 +299,4 @@ pub fn snf_mat_ops(s: &mut Src) -> R {
     }
     Ok(())
 }
-crate::harness_table!(SNF: snf_small [unwind 4], snf_gauss_small [unwind 4], trans_small [unwind 4], lll_small [unwind 4], snf_mat_ops [unwind 4], lll_rows45 [unwind 4]);
+crate::harness_table!(SNF: snf_small [unwind 4], snf_gauss_small [unwind 4], trans_small [unwind 4], lll_small [unwind 4], snf_mat_ops [unwind 4], lll_rows45 [unwind 4], spmat_ops_small [unwind 4]);
